@@ -155,8 +155,9 @@ func (p *Parser) ParseFile(filename string, varPool *VarPool) (*MetaData, []*Bui
 	// (the files that declare them are skipped above as generated): an import or a variable of the
 	// generated code must not take one of them.
 	if injectObj := kessokuPackageScope.Lookup("Inject"); injectObj != nil && pkg.TypesInfo != nil {
-		declared := map[string]int{} // injector name -> number of declarations in the package
-		var ownNames []string        // injector names of the file being processed
+		declared := map[string]int{}   // injector name -> number of declarations in the package
+		declaring := map[string]bool{} // names of the source files that declare injectors
+		var ownNames []string          // injector names of the file being processed
 		for _, f := range pkg.Syntax {
 			if f == nil || isKessokuGenerated(f) {
 				continue
@@ -187,6 +188,7 @@ func (p *Parser) ParseFile(filename string, varPool *VarPool) (*MetaData, []*Bui
 					if name := constant.StringVal(tv.Value); token.IsIdentifier(name) {
 						_ = varPool.GetName(name)
 						declared[name]++
+						declaring[p.fset.Position(f.Package).Filename] = true
 						if f == targetFile {
 							ownNames = append(ownNames, name)
 						}
@@ -204,6 +206,15 @@ func (p *Parser) ParseFile(filename string, varPool *VarPool) (*MetaData, []*Bui
 			if obj := pkg.Types.Scope().Lookup(name); obj != nil {
 				if f := p.fileOf(pkg, obj.Pos()); f != nil && !isKessokuGenerated(f) {
 					return nil, nil, fmt.Errorf("injector name %s is already declared at %s", name, p.fset.Position(obj.Pos()))
+				} else if f != nil {
+					// An output file is rewritten when its source is processed. One whose source is gone, or no
+					// longer declares injectors, is never rewritten: what it declares stays declared.
+					output := p.fset.Position(f.Package).Filename
+					ext := filepath.Ext(output)
+					if base := strings.TrimSuffix(output, ext); strings.HasSuffix(base, "_band") && !declaring[strings.TrimSuffix(base, "_band")+ext] {
+						source := strings.TrimSuffix(base, "_band") + ext
+						return nil, nil, fmt.Errorf("injector name %s is already declared at %s, a leftover output of kessoku (%s declares no injectors): remove it", name, p.fset.Position(obj.Pos()), source)
+					}
 				}
 			}
 			// A name of a file's scope (the name of an import, an identifier of a dot import) cannot be
